@@ -128,18 +128,26 @@ class C05(PropCheck):
                                              "replay_cmd": "bin/check C05 --replay <this file>"}})
         if hists:
             samples.append({"ops": hists[-1][:12], "impl_outputs": results[-1][1][:12]})
+        # concurrent stage: the same registration removed by several threads at once (scheduler)
+        from . import c02
+        rcres = c02.C05rc().correspond(tier, seed, rng)
+        failures += rcres["failures"]
+        dist["concurrent_unregister_scenarios"] = rcres["evaluations"]
         return {
-            "evaluations": len(hists), "distinct_nontrivial": nontrivial,
+            "evaluations": len(hists) + rcres["evaluations"], "distinct_nontrivial": nontrivial + rcres["distinct_nontrivial"],
             "rule": "histories generated type-directed from one PRNG (VERIF_SEED): mostly valid register/unregister/"
                     "raise/foreign over 1-5 signals + %d%% malformed stream (forbidden, out-of-range, stale ids); "
                     "run on the real crate with real raise() in a fresh process each and on the Lean model; distinct = "
-                    "different op list, non-trivial = at least one successful registration and one dispatched delivery" % 8,
+                    "different op list, non-trivial = at least one successful registration and one dispatched delivery; plus scheduled scenarios in which 2-3 threads unregister the same registration concurrently with a writer and a delivery (monitor: answered true exactly once, by the call that removed it)" % 8,
             "samples": samples, "traces_validated_against_impl": len(hists), "distribution": dist,
             "failures": failures,
             "total_ops": sum(len(h) for h in hists),
         }
 
     def replay(self, payload):
+        if "scenario" in payload:
+            from . import c02
+            return c02.C05rc().replay(payload)
         ops = payload["ops"]
         model, impl, rc, err = self.run_one(ops)
         d = core.first_diff(model, impl)
